@@ -104,7 +104,9 @@ class EIG(BaseRoutine):
             The reduced state matrix
         """
         self.gyx = matrix(gx)
-        self.solver.linsolve(gy, self.gyx)
+        # use the returned solution: not every back-end overwrites the right-hand side in place
+        sol = self.solver.linsolve(gy, self.gyx)
+        self.gyx = matrix(np.reshape(sol, self.gyx.size))
 
         Tfnz = Tf + np.ones_like(Tf) * np.equal(Tf, 0.0)
         iTf = spdiag((1 / Tfnz).tolist())
